@@ -1,15 +1,18 @@
 ----------------------------- MODULE RV32_Eval -----------------------------
 (* Idiom E for C08 / C10 / C07: one state per record observed on the real    *)
-(* ppci code (harness/asmgen.py); the invariants are the property clauses.   *)
+(* ppci code (harness/asmgen.py).  The verdict of every clause is computed   *)
+(* per record by the invariants, one invariant per property clause.           *)
 (*                                                                           *)
 (* t = "enc": one instruction instance                                       *)
 (*     mn, ops   printed text of the instance, tokenised                     *)
 (*     sym, pc   address words of the (only) symbol operand / the place      *)
 (*     out       [ok, exc, bytes]: what encode() / the assembler / the       *)
 (*               linker produced (bytes = the instruction's bytes)           *)
-(* t = "rw": bytes + declared uses / defs / clobbers (x-register numbers)    *)
-(* t = "pseudo": printed text of a macro instruction + the byte strings of   *)
-(*     the instructions it was rendered to                                   *)
+(* t = "rw":  seq = byte strings of the instruction (for a macro             *)
+(*     instruction: of the instructions it renders to), uses / defs / clob = *)
+(*     x-register numbers ppci declares, plans = indices into PairPlan;      *)
+(*     mn / ops / sym / pc as above (macro = TRUE: printed text not compared)*)
+(* t = "pseudo": printed text of a macro instruction + seq as above          *)
 EXTENDS RV32, Json, IOUtils, TLC
 Recs == JsonDeserialize(IOEnv.TRACE_FILE)
 \* two-level fan-out: chunk c holds records (c-1)*ChunkLen+1 .. c*ChunkLen (small chunks keep TLC's
@@ -23,20 +26,74 @@ PickChunk == chunk = 0 /\ chunk' \in 1..NChunks /\ i' = 0
 PickRec == chunk > 0 /\ i = 0 /\ chunk' = chunk
            /\ i' \in ((chunk - 1) * ChunkLen + 1)..(IF chunk * ChunkLen < Len(Recs) THEN chunk * ChunkLen ELSE Len(Recs))
 Next == PickChunk \/ PickRec
+\* (the clauses are evaluated as invariants, i.e. at state level, where TLC caches LET / argument
+\* values; heavy values are additionally bound through singleton sets so they are computed once)
 
-Denoted(r) == Asm(r.mn, r.ops, r.sym, r.pc)
-IsEnc(r) == r.t = "enc" /\ Denoted(r) # NoAsm
+SetOf(q) == {q[k] : k \in 1..Len(q)}
+Yes == [syn |-> TRUE, agree |-> TRUE, acc |-> TRUE, rej |-> TRUE, fld |-> TRUE]
 
-\* ---- C08 ----
-\* whatever ppci accepts and emits decodes to the operation and operands it prints
-EncodingAgrees == (i > 0 /\ IsEnc(Recs[i]) /\ Recs[i].out.ok) =>
-                      Decode(Recs[i].out.bytes) = Canon(Denoted(Recs[i]))
-\* not a verdict: the printed line is outside the modelled assembly syntax (reported as a note)
-SyntaxKnown == (i > 0 /\ Recs[i].t = "enc") => Denoted(Recs[i]) # NoAsm
+\* ---- C08 / C10: a = the instruction the printed line denotes, d = what the emitted bytes decode to
+EncVerdict2(r, a, d, e) ==
+    IF a = NoAsm THEN [Yes EXCEPT !.syn = FALSE]
+    ELSE [Yes EXCEPT !.agree = (r.out.ok => d = Canon(a)),
+                     !.acc = (e => r.out.ok),
+                     !.rej = (~e => ~r.out.ok),
+                     !.fld = ((e /\ r.out.ok) => d = Canon(a))]
+EncVerdict(r) ==
+    CHOOSE res \in {EncVerdict2(r, a, IF r.out.ok THEN Decode(r.out.bytes) ELSE Illegal(0),
+                                IF a = NoAsm THEN FALSE ELSE Encodable(a)) : a \in {Asm(r.mn, r.ops, r.sym, r.pc)}} : TRUE
+IsEnc == i > 0 /\ Recs[i].t = "enc"
+\* not a verdict (reported as a note): the printed line is outside the modelled assembly syntax
+SyntaxKnown == IsEnc => EncVerdict(Recs[i]).syn
+\* C08: whatever ppci accepts and emits decodes to the operation and operands it prints
+EncodingAgrees == IsEnc => EncVerdict(Recs[i]).agree
+\* C10
+AcceptsRepresentable == IsEnc => EncVerdict(Recs[i]).acc
+RejectsUnrepresentable == IsEnc => EncVerdict(Recs[i]).rej
+FieldDecodesToValue == IsEnc => EncVerdict(Recs[i]).fld
 
-\* ---- C10 ----
-AcceptsRepresentable == (i > 0 /\ IsEnc(Recs[i]) /\ Encodable(Denoted(Recs[i]))) => Recs[i].out.ok
-RejectsUnrepresentable == (i > 0 /\ IsEnc(Recs[i]) /\ ~Encodable(Denoted(Recs[i]))) => ~Recs[i].out.ok
-FieldDecodesToValue == (i > 0 /\ IsEnc(Recs[i]) /\ Encodable(Denoted(Recs[i])) /\ Recs[i].out.ok) =>
-                      Decode(Recs[i].out.bytes) = Canon(Denoted(Recs[i]))
+\* ---- C07
+Prog(r) == Mk([k \in 1..Len(r.seq) |-> Decode(r.seq[k])])
+\* a verdict is given when the bytes decode inside the model and (for a real instruction) decode to
+\* the operation and operands the declared sets talk about, i.e. the printed ones (else: C08's business)
+Judgeable(r, p) ==
+    /\ \A k \in 1..Len(p) : p[k].mn \notin {"illegal", "unsupported"}
+    /\ r.macro \/ (\E a \in {Asm(r.mn, r.ops, r.sym, r.pc)} : a # NoAsm /\ Len(p) = 1 /\ p[1] = Canon(a))
+DeclW(r) == SetOf(r.defs) \cup SetOf(r.clob)
+DeclR(r) == SetOf(r.uses)
+IsRw == i > 0 /\ Recs[i].t = "rw"
+Decodable == IsRw => \E p \in {Prog(Recs[i])} : Judgeable(Recs[i], p)
+StaticWrites == IsRw => \E p \in {Prog(Recs[i])} : Judgeable(Recs[i], p) => WritesSeq(p) \subseteq DeclW(Recs[i])
+StaticReads == IsRw => \E p \in {Prog(Recs[i])} :
+    Judgeable(Recs[i], p) => (ReadsSeq(p) \ ImplicitSPSeq(p)) \subseteq DeclR(Recs[i])
+NoUndeclaredChange == IsRw => \E p \in {Prog(Recs[i])} : Judgeable(Recs[i], p) =>
+    \A n \in SetOf(Recs[i].plans) :
+        \E s1 \in {BaseState(PairPlan[n][1], PairPlan[n][2])} :
+        \E t1 \in {Run(s1, p)} : NoUndeclaredWriteT(s1, t1, DeclW(Recs[i]))
+OutputsDependOnDeclaredReads == IsRw => \E p \in {Prog(Recs[i])} : Judgeable(Recs[i], p) =>
+    \A n \in SetOf(Recs[i].plans) :
+        \E s1 \in {BaseState(PairPlan[n][1], PairPlan[n][2])} :
+        \E s2 \in {Perturb(s1, DeclR(Recs[i]) \cup ImplicitSPSeq(p), PairPlan[n][3])} :
+        \E t1 \in {Run(s1, p)} : \E t2 \in {Run(s2, p)} : SameOutputsT(t1, t2, SetOf(Recs[i].defs))
+
+\* ---- macro instructions (C08): the rendering means what the macro prints
+\* single instruction: its expansion is the printed base instruction (and/or/xor/add commute);
+\* li / la / lw rd, label: executing the rendering leaves the printed value in rd
+Commutes(m) == m \in {"and", "or", "xor", "add"}
+SameBase(x, y) == \/ [x EXCEPT !.len = 4] = [y EXCEPT !.len = 4]
+                  \/ Commutes(x.mn) /\ [x EXCEPT !.len = 4] = [y EXCEPT !.len = 4, !.rs1 = y.rs2, !.rs2 = y.rs1]
+PseudoOk(r, p, s1, t) ==
+    LET rd == r.ops[1][2] IN
+    IF \E k \in 1..Len(p) : p[k].mn \in {"illegal", "unsupported"} THEN TRUE
+    ELSE IF r.mn \in {"li", "la", "lw"} /\ Kinds(r.ops)[1] = "r" /\ rd = 0 THEN TRUE     \* x0 holds no value
+    ELSE IF r.mn = "li" /\ Kinds(r.ops) = <<"r", "i">> THEN
+        t.st = "ok" /\ Reg(t, rd) = W4(r.ops[2][2]) /\ WritesSeq(p) \subseteq {rd}
+    ELSE IF r.mn = "la" /\ Kinds(r.ops) = <<"r", "l">> THEN
+        t.st = "ok" /\ Reg(t, rd) = WAdd(WSub(r.sym, r.pc), s1.pc) /\ WritesSeq(p) \subseteq {rd}
+    ELSE IF r.mn = "lw" /\ Kinds(r.ops) = <<"r", "l">> THEN
+        t.st = "ok" /\ WritesSeq(p) \subseteq {rd} /\ Reg(t, rd) = LoadBytes(s1.mem, WAdd(WSub(r.sym, r.pc), s1.pc), 4)
+    ELSE \E a \in {Asm(r.mn, r.ops, r.sym, r.pc)} :
+            a # NoAsm => (Len(p) = 1 /\ SameBase(Expand(p[1]), Canon(a)))
+MacroMeansWhatItPrints == (i > 0 /\ Recs[i].t = "pseudo") =>
+    \E p \in {Prog(Recs[i])} : \E s1 \in {BaseState(3, 0)} : \E t \in {Run(s1, p)} : PseudoOk(Recs[i], p, s1, t)
 =============================================================================
